@@ -56,7 +56,7 @@ PROPS = {
                    'Slurry.generate_curves (all keys, all indices) and Erhg_graded(get_dict=True) on generated objects. Theorems over exact reals.',
     ),
     'C18': dict(
-        own_files=['Lemmas/LC18.v', 'Lemmas/LC18b.v', 'Props/C18.v'],
+        own_files=['Lemmas/LC18.v', 'Lemmas/LC18b.v', 'Lemmas/LMono.v', 'Props/C18.v'],
         corr=[dict(script='corr_interp.py', n=150, n_thorough=3000)],
         search='C18.py', budget_quick=300, budget_thorough=10000,
         partial=[],
@@ -222,11 +222,12 @@ PROPS = {
                    'max_steps in {0,1,3,10,20,50}.',
     ),
     'C12': dict(
-        own_files=['Lemmas/LC12.v', 'Lemmas/LC12b.v', 'Lemmas/LC12c.v', 'Lemmas/LC12d.v', 'Lemmas/LC12e.v', 'Props/C12.v'],
+        own_files=['Lemmas/LC12.v', 'Lemmas/LC12b.v', 'Lemmas/LC12c.v', 'Lemmas/LC12d.v', 'Lemmas/LC12e.v', 'Lemmas/LMono.v', 'Props/C12.v'],
         corr=[dict(script='corr_slurry.py', n=60, n_thorough=1500, args=['--parts', 'fracs,getdx,regen'])],
         search='C12.py', budget_quick=400, budget_thorough=20000,
-        partial=['get_dx increasing over the WHOLE range (across nodes and in the two extrapolated ends) is proved segment-wise (C12_interpolation_monotone) '
-                 'but not assembled into one global monotonicity statement; searched on a 50-point grid per object',
+        partial=['get_dx increasing over the whole of (0,1) is proved (C12_get_dx_increasing) for gradings with increasing fractions and positive '
+                 'increasing diameters; that every create_fracs output has positive diameters is immediate for the three-point input (it starts at '
+                 'dmin > 0 or at a power of ten) but is not restated as a closed corollary',
                  'the 4-point inputs are covered by the general theorem C12_structure + C12_skip (any number of points); a closed corollary like '
                  'C12_three_point is written only for the 3-point input'],
         level_text='Proof (model of create_fracs, any number of input points and subdivisions): after discarding points below the pseudo-liquid limit '
